@@ -221,6 +221,7 @@ structure Flags where
   takeValuedNamed : Bool := true
   skipRecordsInput : Bool := false
   dupIsError : Bool := true
+  hopCopies : Bool := true
 deriving Repr
 
 def behFromTrace (sc : Scn) (execs : List ExecEv) : Nat → Nat → List PVal → BehOut :=
@@ -298,11 +299,16 @@ def replayRun (fl : Flags) (sc : Scn) (b : Builder) (cgr : CallGraphResult) (tar
   -- its behaviour is known (it returns its argument) and its execution is not in the trace
   let behT := behFromTrace sc execs
   let beh : Nat → Nat → List PVal → BehOut := fun fid nth args =>
-    if convertRun && fid == 0 then { outs := args.map (·.id), err := none } else behT fid nth args
+    if convertRun && fid == 0 then
+      -- the library's identity function returns its argument; for the target type `error` itself the single
+      -- result is the function's error: a non-nil argument makes the identity call fail with that value
+      (if target.hasErr && target.output.values.isEmpty then { outs := [], err := (args.head?.map (·.id)) }
+       else { outs := args.map (·.id), err := none })
+    else behT fid nth args
   let ctx : Ctx := { env := sc.env, g := cgr.cg.g, funcOf := sc.funcOfKey b.convs, beh := beh,
                      memoCopy := fl.memoCopy, publishAfterUpdate := fl.publishAfterUpdate,
                      trackReaching := fl.trackReaching, takeValuedNamed := fl.takeValuedNamed,
-                     skipRecordsInput := fl.skipRecordsInput, auto := auto }
+                     skipRecordsInput := fl.skipRecordsInput, hopCopies := fl.hopCopies, auto := auto }
   let (o, st) := callWith ctx cgr target (fuelFor sc) { initSt cgr.cg memo0 items with count := count0 }
   let ires := resOf evs
   -- the unsatisfied error of a call without any input or converter carries empty lists
